@@ -33,6 +33,10 @@ FIXED = [
     ('D14', ['C17', 'C18', 'C09'], 'unix io subscribe no longer touches the socket', 'unix io subscribe used self.io_data / the cancel data after storing the coroutine: heap-use-after-free once another worker resumed it and it dropped the socket or ended; stale cancel registration'),
     ('D22', ['C18', 'C17', 'C13'], 'the io timer handle of a socket is exchanged atomically', 'EventData::timer RefCell touched from the subscribing worker and the selector thread: "already borrowed" panic kills a worker thread'),
     ('D23', ['C18', 'C17', 'C19'], 'Entry::with_mut_data ignores an entry that was already popped', 'disarming an io timer that had just fired panicked with "Node value is None" and killed the worker thread: missed readiness for everything it served'),
+    ('D24', ['C05', 'C09', 'C10', 'C11'], "SyncBlocker's release/unparked handshake gets the full fences", 'store->load reordering between set_release/unpark on x86: a released waiter and its waker both missed each other, the waiter never resumed (hsmutex/hssem stress with the hooks uninstalled, ~1 in 20000 rounds)'),
+    ('D25a', ['C19', 'C18', 'C08'], 'the reference count of a timer list node is atomic', 'Entry ref count of mpsc_list_v1 nodes was a plain usize updated from the timer thread and from handle owners: lost decrement / double free under contention'),
+    ('D25b', ['C19', 'C18', 'C08'], 'dropping a timer list leaves its stub node', 'TimeOutList interval clean-up (> 1024 distinct intervals) dropped a list whose stub node a TimeoutHandle still pointed to: heap-use-after-free in Entry::drop (ASan, tcp/io at 16 workers)'),
+    ('D26', ['C17'], 'CoIo leaves the selector before its descriptor is closed', 'CoIo (unix sockets) closed the descriptor before EPOLL_CTL_DEL; a socket opened in between by another thread reused the number and lost its registration: reader suspended forever with bytes in the kernel (iochurn; rare hangs of the os::unix::net tests)'),
 ]
 
 KNOWN = [
